@@ -126,7 +126,7 @@ func genTransport(g *rand.Rand, tier string) any {
 	case 1:
 		p.Mode = g.IntN(3)
 	case 2:
-		p.Mode = g.IntN(6)
+		p.Mode = g.IntN(7)
 	}
 	if p.Mode == 2 {
 		m := 1 + g.IntN(5)
@@ -706,7 +706,54 @@ func execHTTPTransport(e *Env, p *TransportParams) {
 			return false
 		}
 	}
-	switch p.Mode % 6 {
+	switch p.Mode % 7 {
+	case 6:
+		// a connection that has just come into being is not idle: the cleaner's first
+		// tick (1 min) arrives while its first POST is still waiting for a reader, far
+		// inside the 4 min timeout; the envelope is delivered all the same
+		first := genEnvelope(p.EnvSeeds[0], true, false)
+		ctx, cancel := context.WithCancel(context.Background())
+		e.OnTeardown(cancel)
+		var werr error
+		wdone := false
+		e.Go("http.fresh.writer", func() { werr = aToB.Write(ctx, first); wdone = true })
+		e.NoAutoAdvance = true
+		if rr := e.Drive(nil); rr == Crashed || rr == StepLimit {
+			return
+		}
+		e.Advance(61 * time.Second)
+		e.Note("fault.clock.jump")
+		if rr := e.Drive(nil); rr == Crashed || rr == StepLimit {
+			return
+		}
+		e.NoAutoAdvance = false
+		var got *Rpc
+		var rerr error
+		rdone := false
+		e.Go("http.fresh.reader", func() {
+			if waitB(ctx) {
+				got, rerr = getB().Read(ctx)
+			} else {
+				rerr = ctx.Err()
+			}
+			rdone = true
+		})
+		e.NoAutoAdvance = true
+		rr := e.Drive(nil)
+		e.NoAutoAdvance = false
+		if rr == Crashed || rr == StepLimit {
+			return
+		}
+		e.Note("nontrivial")
+		e.Note("http.fresh-connection-tick")
+		switch {
+		case !rdone || !wdone:
+			e.Violate(prop, "fresh-connection-reaped", "http.connectionCleaner", "first envelope of a new HTTP connection, one cleaner tick (61 s) after its POST began: write returned=%v read returned=%v\n%s", wdone, rdone, e.WaitGraph())
+		case rerr != nil || werr != nil:
+			e.Violate(prop, "fresh-connection-reaped", "http.connectionCleaner", "a connection 61 s old (timeout 4 min) was treated as idle at the cleaner's first tick: the first envelope's Write returned %v, the reader got %v", werr, rerr)
+		case !proto.Equal(got, first):
+			e.Violate(prop, "altered", "http", "the first envelope of a new connection arrived altered")
+		}
 	case 5:
 		cancelledReads(e, "http", aToB, lazyB, envsOf(p, true))
 	case 0:
